@@ -106,6 +106,37 @@ def limbOp (ff : Bool) (op : String) (args : List String) : Option String := do
     let z := if ff then (ffl_Element_SetUint64 (stale n) v).1 else (ffgl_Element_SetUint64 (stale n) v).1
     let z2 := if ff then ffl_NewElementFromUint64 v else ffgl_NewElementFromUint64 v
     pure (if z == z2 then val z else val z ++ "!NewElementFromUint64-differs")
+  | "setinterface", [kind, payload] =>
+    -- the dynamic dispatch on the type is the Go runtime's; each case of the type switch is a regenerated definition
+    let z := stale n
+    let res := fun (r : List Nat × Option String × List Nat) =>
+      match r.2.1 with
+      | some msg => if msg.startsWith "can't set ff" then "ERR:badType" else "ERR:other"
+      | none => if r.1 == r.2.2 then val r.1 else val r.1 ++ "!receiver-differs"
+    match kind with
+    | "element" =>
+      let x := el (← parseInt? payload)
+      pure (res (if ff then ffl_Element_SetInterface_case_ff_Element z x else ffgl_Element_SetInterface_case_ffg_Element z x))
+    | "elementptr" =>
+      let x := el (← parseInt? payload)
+      pure (res (if ff then ffl_Element_SetInterface_case_ptr_ff_Element z x else ffgl_Element_SetInterface_case_ptr_ffg_Element z x))
+    | "uint64" =>
+      let v ← parseNat? payload
+      pure (res (if ff then ffl_Element_SetInterface_case_uint64 z v else ffgl_Element_SetInterface_case_uint64 z v))
+    | "int" =>
+      let v ← parseInt? payload
+      pure (res (if ff then ffl_Element_SetInterface_case_int z v else ffgl_Element_SetInterface_case_int z v))
+    | "string" => pure (res (if ff then ffl_Element_SetInterface_case_string z payload else ffgl_Element_SetInterface_case_string z payload))
+    | "bigintptr" =>
+      let v ← parseInt? payload
+      pure (res (if ff then ffl_Element_SetInterface_case_ptr_big_Int z v else ffgl_Element_SetInterface_case_ptr_big_Int z v))
+    | "bigint" =>
+      let v ← parseInt? payload
+      pure (res (if ff then ffl_Element_SetInterface_case_big_Int z v else ffgl_Element_SetInterface_case_big_Int z v))
+    | "bytes" =>
+      let b ← parseBytes? payload
+      pure (res (if ff then ffl_Element_SetInterface_case_slice_byte z b else ffgl_Element_SetInterface_case_slice_byte z b))
+    | other => pure (res (if ff then ffl_Element_SetInterface_default z other else ffgl_Element_SetInterface_default z other))
   | "tobigint", [x] => pure (val (el (← parseInt? x)))
   | "montbigint", [x] =>
     let l := el (← parseInt? x)
